@@ -164,7 +164,7 @@ Definition env_zone (src : val) : option timezone :=
 Definition run (op : bytes) (args : list val) : val :=
   match args with
   | [src; _; xs] =>
-      if op_is op "lz.at" then batch src xs op_at
+      if op_is op "lz.at" || op_is op "lz.uat" then batch src xs op_at
       else if op_is op "lz.loc" || op_is op "lz.uloc" then batch src xs op_loc
       else if op_is op "lz.sel" || op_is op "lz.usel" then batch src xs op_sel
       else if op_is op "lz.rt" || op_is op "lz.urt" then batch src xs op_rt
@@ -179,6 +179,6 @@ Definition run (op : bytes) (args : list val) : val :=
         | _, _ => VBad
         end
       else VErr B"NOOP"
-  | _ => if op_is op "lz.at" || op_is op "lz.loc" || op_is op "lz.uloc" || op_is op "lz.sel" || op_is op "lz.usel"
+  | _ => if op_is op "lz.at" || op_is op "lz.uat" || op_is op "lz.loc" || op_is op "lz.uloc" || op_is op "lz.sel" || op_is op "lz.usel"
             || op_is op "lz.rt" || op_is op "lz.urt" || op_is op "lz.env" then VBad else VErr B"NOOP"
   end.
